@@ -1,10 +1,14 @@
 use crate::runner::Property;
 
+pub mod c01;
+pub mod c13;
 pub mod c14;
 pub mod common;
 
 pub fn by_id(id: &str) -> Option<Box<dyn Property>> {
     Some(match id {
+        "C01" => Box::new(c01::C01),
+        "C13" => Box::new(c13::C13),
         "C14" => Box::new(c14::C14),
         _ => return None,
     })
